@@ -127,12 +127,12 @@ impl Prop for BitsProp {
         match (self.id, tier, build) {
             ("C06", Tier::Quick, "fast") => 40_000,
             ("C06", Tier::Quick, _) => 15_000,
-            ("C06", Tier::Thorough, "fast") => 200_000,
-            ("C06", Tier::Thorough, _) => 80_000,
+            ("C06", Tier::Thorough, "fast") => 160_000,
+            ("C06", Tier::Thorough, _) => 40_000,
             (_, Tier::Quick, "fast") => 10_000,
             (_, Tier::Quick, _) => 3_200,
-            (_, Tier::Thorough, "fast") => 80_000,
-            (_, Tier::Thorough, _) => 25_000,
+            (_, Tier::Thorough, "fast") => 60_000,
+            (_, Tier::Thorough, _) => 12_000,
         }
     }
     fn rule(&self) -> &'static str {
